@@ -86,8 +86,11 @@ Leaves == <<
   Leaf(SysPlat, "!=", Lit("darwin", <<>>), 1, FALSE, FALSE), Leaf(SysPlat, "==", Lit("Linux", <<>>), 1, FALSE, TRUE),
   Leaf(SysPlat, "===", Lit("Linux", <<>>), 1, FALSE, TRUE), Leaf(OsName, "==", Lit("posix", <<>>), 0, TRUE, TRUE),
   Leaf(OsName, "!=", Lit("nt", <<>>), 1, FALSE, FALSE), Leaf(OsName, "<", Lit("q", <<>>), -1, FALSE, FALSE), Leaf(OsName, ">=", Lit("posiy", <<>>), -1, FALSE, FALSE),
-  Leaf(Lit("lin", <<>>), "in", SysPlat, 1, TRUE, FALSE), Leaf(Lit("win", <<>>), "in", SysPlat, 1, FALSE, FALSE),
+  Leaf(Lit("lin", <<>>), "in", SysPlat, -1, TRUE, FALSE), Leaf(Lit("win", <<>>), "in", SysPlat, 1, FALSE, FALSE),
   Leaf(Lit("win", <<>>), "not in", SysPlat, 1, FALSE, FALSE), Leaf(SysPlat, "in", Lit("linux darwin", <<>>), -1, TRUE, FALSE),
+  \* not in where exactly one operand is a proper substring of the other (swapping needle and haystack changes the answer)
+  Leaf(Lit("lin", <<>>), "not in", SysPlat, -1, TRUE, FALSE), Leaf(SysPlat, "not in", Lit("win32 linux darwin", <<>>), -1, TRUE, FALSE),
+  Leaf(SysPlat, "in", Lit("lin", <<>>), 1, FALSE, FALSE),
   Leaf(Machine, "==", Lit("x86_64", <<>>), 0, TRUE, TRUE), Leaf(Lit("86", <<86>>), "in", Machine, -1, TRUE, FALSE),
   Leaf(PyImpl, "==", Lit("CPython", <<>>), 0, TRUE, TRUE), Leaf(PyImpl, "==", Lit("cpython", <<>>), -1, FALSE, TRUE),
   Leaf(ImplName, "!=", Lit("pypy", <<>>), -1, FALSE, FALSE), Leaf(PlatSys, "==", Lit("Linux", <<>>), 0, TRUE, TRUE),
